@@ -18,7 +18,7 @@ vars == <<l, H>>
 
 NoOut == [set |-> FALSE]
 EmptyH == [scen |-> "", par |-> [variant |-> "none"], sent |-> <<>>, arr |-> <<>>, del |-> <<>>,
-           twinof |-> "", hlog |-> <<>>, flt |-> <<>>, cancel |-> -1, out |-> NoOut, got |-> <<>>, twin |-> NoOut]
+           twinof |-> "", hlog |-> <<>>, flt |-> <<>>, cancel |-> -1, out |-> NoOut, got |-> <<>>, due |-> <<>>, twin |-> NoOut]
 
 \* The state keeps only LINE NUMBERS of the events (small states: TLC fingerprints every state); the history record the
 \* Props formulas talk about is materialised from the trace when a scenario returns.
@@ -31,6 +31,7 @@ Step(h, e, ln) ==
       [] e.event = "Arrive"  -> [h EXCEPT !.arr = Append(@, ln)]
       [] e.event = "Deliver" -> [h EXCEPT !.del = Append(@, ln)]
       [] e.event \in {"Got", "Alloc"} -> [h EXCEPT !.got = Append(@, ln)]
+      [] e.event = "Due"     -> [h EXCEPT !.due = Append(@, ln)]
       [] e.event \in {"Open", "Close", "SetFilter", "UseAfterClose", "Accept"} -> [h EXCEPT !.hlog = Append(@, ln)]
       [] e.event = "Fault"   -> [h EXCEPT !.flt = Append(@, ln)]
       [] e.event = "Cancel"  -> [h EXCEPT !.cancel = e.t]
@@ -45,6 +46,7 @@ Mat(h) == [h EXCEPT
     !.arr  = [k \in DOMAIN h.arr |-> LET e == Trace[h.arr[k]] IN [n |-> e.n, t |-> e.t, tag |-> e.tag, for_ttl |-> e.for_ttl, d |-> e.d]],
     !.del  = [k \in DOMAIN h.del |-> LET e == Trace[h.del[k]] IN [n |-> e.n, t |-> e.t, pkt |-> e.pkt, h |-> e.h, run |-> e.run]],
     !.got  = [k \in DOMAIN h.got |-> Trace[h.got[k]]],
+    !.due  = [k \in DOMAIN h.due |-> Trace[h.due[k]]],
     !.hlog = [k \in DOMAIN h.hlog |-> LET e == Trace[h.hlog[k]] IN [ev |-> e.event] @@ e],
     !.flt  = [k \in DOMAIN h.flt |-> Trace[h.flt[k]]]]
 
